@@ -60,6 +60,9 @@ pub struct FlowState {
     pub per_message: Option<crate::sig::Proto>,
     /// some earlier segment left the reference dispatcher in a state other than "pending"
     pub seen_non_pending: bool,
+    /// HTTP connection on which every request so far was answered, ended exactly at the end of a
+    /// segment and announced no body: the next segment starts a new request
+    pub http_boundary: bool,
 }
 
 /// Reference connection table: set of validated flows, each with the bytes received so far.
@@ -85,14 +88,15 @@ impl ModelTable {
         let mut s = String::new();
         for (k, f) in &self.flows {
             s.push_str(&format!(
-                "{}:{}>{}:{}|{}|{}|{};",
+                "{}:{}>{}:{}|{}|{}|{}|{};",
                 k.cip,
                 k.cport,
                 k.sip,
                 k.sport,
                 hex(&f.stream),
                 f.answered,
-                f.muddled
+                f.muddled,
+                f.http_boundary
             ));
         }
         s
@@ -991,6 +995,18 @@ impl Model {
                         // (the loose port mirror of the invariants still applies)
                         let _ = u;
                     }
+                    (AppVerdict::IfAnswered(_, why), None) => {
+                        j.class = "udp-abstain:silent".into();
+                        j.abstained = Some(why.clone());
+                    }
+                    (AppVerdict::IfAnswered(req, why), Some(u)) => {
+                        j.class = format!("udp-cond-answer:{}", req.kind());
+                        j.abstained = Some(why.clone());
+                        self.check_udp_ports(&u, ctx, req.change_port(), req.kind() == "stun", j);
+                        if let Err((prop, key, what)) = req.validate(u.payload, ctx) {
+                            j.findings.push(finding(prop, &key, what));
+                        }
+                    }
                     (AppVerdict::Answer(req), None) => {
                         j.class = format!("udp-unanswered:{}", req.kind());
                         // attribute to a matcher event only what goes through the matcher
@@ -1006,7 +1022,7 @@ impl Model {
                     }
                     (AppVerdict::Answer(req), Some(u)) => {
                         j.class = format!("udp-answer:{}", req.kind());
-                        self.check_udp_ports(&u, ctx, req.change_port(), j);
+                        self.check_udp_ports(&u, ctx, req.change_port(), req.kind() == "stun", j);
                         if let Err((prop, key, what)) = req.validate(u.payload, ctx) {
                             j.findings.push(finding(prop, &key, what));
                         }
@@ -1026,14 +1042,14 @@ impl Model {
         }
     }
 
-    fn check_udp_ports(&self, u: &PUdp, ctx: &AppCtx, change_port: bool, j: &mut Judgement) {
+    fn check_udp_ports(&self, u: &PUdp, ctx: &AppCtx, change_port: bool, stun: bool, j: &mut Judgement) {
         let want = if change_port { ctx.sport.wrapping_add(1) } else { ctx.sport };
         if u.sport != want {
-            j.findings.push(finding(
-                if change_port { "C15" } else { "C03" },
-                "udp-src-port",
-                format!("reply source port {} (want {})", u.sport, want),
-            ));
+            // C03 states the mirror rule and its sole exception; C15 states the exception too
+            j.findings.push(finding("C03", "udp-src-port", format!("reply source port {} (want {})", u.sport, want)));
+            if stun {
+                j.findings.push(finding("C15", "udp-src-port", format!("STUN response source port {} (want {}: change-port requested = {})", u.sport, want, change_port)));
+            }
         }
     }
 
@@ -1057,11 +1073,14 @@ impl Model {
                 format!("PSH={} but {} bytes of application data", has_psh, t.payload.len()),
             ));
         }
-        let change = matches!(app, AppVerdict::Answer(r) if r.change_port());
+        let change = matches!(app, AppVerdict::Answer(r) | AppVerdict::IfAnswered(r, _) if r.change_port());
         let want = if change { ctx.sport.wrapping_add(1) } else { ctx.sport };
         if !matches!(app, AppVerdict::Unspecified(_)) && !(change && t.payload.is_empty()) && t.sport != want {
             j.findings
                 .push(finding("C03", "tcp-src-port", format!("reply source port {} (want {})", t.sport, want)));
+            if matches!(app, AppVerdict::Answer(r) | AppVerdict::IfAnswered(r, _) if r.kind() == "stun") {
+                j.findings.push(finding("C15", "tcp-src-port", format!("STUN response source port {} (want {}: change-port requested = {})", t.sport, want, change)));
+            }
         }
     }
 
@@ -1080,6 +1099,15 @@ impl Model {
             AppVerdict::Unspecified(why) => {
                 j.class = format!("tcp-abstain:{}", if payload.is_empty() { "bare" } else { "data" });
                 j.abstained = Some(why.clone());
+            }
+            AppVerdict::IfAnswered(req, why) => {
+                j.class = format!("tcp-cond-answer:{}", if payload.is_empty() { "bare" } else { "data" });
+                j.abstained = Some(why.clone());
+                if !payload.is_empty() {
+                    if let Err((prop, key, what)) = req.validate(payload, ctx) {
+                        j.findings.push(finding(prop, &key, what));
+                    }
+                }
             }
             AppVerdict::Answer(req) => {
                 j.class = format!("tcp-answer:{}", req.kind());
